@@ -897,6 +897,9 @@ func (in *Interp) eval(fr *Frame, e Expr) Value {
 }
 
 func (in *Interp) evalTable(fr *Frame, te *TableExpr) Value {
+	// a constructor costs what its fields cost: a 25 000-field constructor inside a loop must run into the step budget
+	in.Steps += len(te.Fields) / 4
+	in.step()
 	t := NewTable()
 	mark := len(fr.reads)
 	n := 0
